@@ -199,7 +199,10 @@ TABLE = {
              "co_yield std::move(variable); the projection compares after every access, in every access form, the content the consumer saw, the "
              "agreement of the future result with gen.value(), the number of copies made (exactly one per call-style item and per it++, none of "
              "the argument), and the content and moved-from flag of the body's own variable. The specification states that the library never "
-             "moves from a yielded object (PayloadIntact); the pre-97856c3 post-increment is kept as a specification self-test that TLC must reject.",
+             "moves from a yielded object (PayloadIntact); the pre-97856c3 post-increment is kept as a specification self-test that TLC must reject. "
+             "Generator OBJECTS take part too (action ObjOp: move construction, move assignment onto a fresh / parked-at-yield / finished "
+             "target, swap; the frame and its locals follow the object, a replaced frame is destroyed exactly once at the assignment), and "
+             "step arguments are passed as lvalue, temporary and std::move(named) in rotation.",
         note="bounds: quick body<=4 steps and <=4 accesses (full edge cover, 49k paths x 2 modes); thorough body<=5-6 and <=5-6 accesses (281k paths, "
              "ASan/UBSan) plus TLC-only runs (2.0M states); tracked copyable payloads (move-only payloads not exercised), lvalue arguments, <=2 accesses after an exception, two thread release orders "
              "only; TCB: TLC, vsched, the replayer's projection and private-member access, the linear path cover in tools/checks/c13.py",
